@@ -225,6 +225,12 @@ def plausible_op(uni, w, S, rng, catalogue):
         if not c:
           break
         cs.append(rng.choice(c))
+      if len(cs) >= 3 and rng.random() < 0.25:
+        # the same object twice (e.g. one rp used for both parentheses): must be rejected as a whole
+        dup = [k for k in range(1, len(cs)) if kinds[cs[k] - 1] in [kinds[x - 1] for x in cs[:k]]]
+        if dup:
+          k = dup[-1]
+          cs[k] = next(x for x in cs[:k] if kinds[x - 1] == kinds[cs[k] - 1])
       return mkop("PushChildren", p, cs=cs)
     pool = [e for e in E if kinds[e - 1] in ("rt", "rp", "rb", "rbc", "rtc", "span")]
     k = rng.randint(1, 4)
